@@ -93,15 +93,22 @@ ObsModel ==
     [] E.ev = "obs_l" -> E.all = LView(E.k, E.now) /\ E.ttl = (IF LView(E.k, E.now) # <<>> THEN TtlView("l", E.k, E.now) ELSE -1)
     [] E.ev = "obs_s" -> E.mem = SView(E.k, E.now) /\ E.ttl = (IF SView(E.k, E.now) # <<>> THEN TtlView("s", E.k, E.now) ELSE -1)
     [] E.ev = "obs_z" -> E.rng = ZView(E.k, E.now) /\ E.ttl = (IF ZView(E.k, E.now) # <<>> THEN TtlView("z", E.k, E.now) ELSE -1)
+    [] E.ev = "obs_b" -> \* bits: <<offset, GETBIT>> for every pool offset; cnt = BITCOUNT; ex = BKEYEXIST; ttl = BTTL
+         LET v == BitView(db, E.k, E.now)
+         IN \/ (v[3] /\ StrHasPoolSym(KVLive(db.kv[E.k], E.now).v))      \* legacy string with a pool-dependent byte: not modelled
+            \/ /\ E.ex = B(v[1]) /\ E.cnt = Cardinality(v[2])
+               /\ \A i \in 1..Len(E.bits) : E.bits[i][2] = B(E.bits[i][1] \in v[2])
+               /\ E.ttl = (IF CLive("b", db.bm[E.k], E.now).has THEN TtlView("b", E.k, E.now) ELSE -1)
 ObsExpected ==
   CASE E.ev = "obs_k" -> <<ViewKV(db, E.k, E.now), TtlView("k", E.k, E.now)>>
     [] E.ev = "obs_h" -> <<HView(E.k, E.now), TtlView("h", E.k, E.now)>>
     [] E.ev = "obs_l" -> <<LView(E.k, E.now), TtlView("l", E.k, E.now)>>
     [] E.ev = "obs_s" -> <<SView(E.k, E.now), TtlView("s", E.k, E.now)>>
     [] E.ev = "obs_z" -> <<ZView(E.k, E.now), TtlView("z", E.k, E.now)>>
+    [] E.ev = "obs_b" -> <<BitView(db, E.k, E.now), TtlView("b", E.k, E.now)>>
 ObsTy == CASE E.ev = "obs_k" -> "k" [] E.ev = "obs_h" -> "h" [] E.ev = "obs_l" -> "l"
-           [] E.ev = "obs_s" -> "s" [] E.ev = "obs_z" -> "z"
-IsObs == E.ev \in {"obs_k", "obs_h", "obs_l", "obs_s", "obs_z"}
+           [] E.ev = "obs_s" -> "s" [] E.ev = "obs_z" -> "z" [] E.ev = "obs_b" -> "b"
+IsObs == E.ev \in {"obs_k", "obs_h", "obs_l", "obs_s", "obs_z", "obs_b"}
 
 -----------------------------------------------------------------------------
 Mismatch(class, expinv, expected) ==
